@@ -31,7 +31,7 @@ Print Assumptions C06_replay_no_effect.
 (* 4. A genuine (newer, unseen, foreign) update is applied: recorded with its pair and its
       connections. *)
 Theorem C06_fresh_applied : forall st u recv,
-  u_susp u = 0 -> u_origin u <> 0 -> u_origin u <> ns_self st ->
+  u_susp u = 0 -> u_origin u <> 0 -> conns_pos (u_conns u) = true -> u_origin u <> ns_self st ->
   mem_N (u_id u) (ns_seen st) = false ->
   pair_le (Some (u_epoch u, u_seq u)) (info_of st (u_origin u)) = false ->
   let st' := fst (handle_update st u recv) in
